@@ -272,6 +272,8 @@ def check_C12(tier, seed):
     mcs.append(("AckFreq.tla", "MC_AckFreq.cfg"))
     # explicit congestion notification (the other congestion signal): extension, see DESIGN 0.8
     mcs += [("Ecn.tla", "MC_Ecn.cfg"), ("Ecn.tla", "MC_Ecn_hostile.cfg"), ("Ecn.tla", "MC_Ecn_bleached.cfg")]
+    # loss detection: thresholds, loss time, the timer as a function of the state (extension, DESIGN 0.8)
+    mcs.append(("LossDetect.tla", "MC_LossDetect3.cfg" if quick else "MC_LossDetect.cfg"))
     ccv, cccov = cc_stage(tier, seed, r)
     res = generic("C12", tier, seed, mcs, scripts,
                    [("recovery", "RecoveryTrace.tla", "RecoveryTrace.cfg"), ("acks", "AckTrace.tla", "AckTrace.cfg"),
